@@ -39,6 +39,7 @@ pub fn c13(t: &Trace, r: &mut Report) {
     let mut active = false;
     let (mut lo, mut hi, mut amp) = (0.0f64, 0.0f64, 0.0f64);
     let mut alpha_min = 1.0f64;
+    let mut alpha_cur = 1.0f64; // coefficient in effect
     // constant-input run bookkeeping
     let mut run_x: Option<f32> = None;
     let mut run_len = 0u64;
@@ -59,6 +60,7 @@ pub fn c13(t: &Trace, r: &mut Report) {
             hi = 0.0;
             amp = 0.0;
             alpha_min = parse(&t.obs[i]).map(|g| g.b0 as f64).unwrap_or(1.0);
+            alpha_cur = alpha_min;
             run_x = None;
             last_y = Some(0.0);
             continue;
@@ -83,6 +85,7 @@ pub fn c13(t: &Trace, r: &mut Report) {
                 }
                 if let Some(g) = parse(&t.obs[i]) {
                     alpha_min = alpha_min.min(g.b0 as f64);
+                    alpha_cur = g.b0 as f64;
                 }
                 retimed = true;
                 // no reset here: with the input held, the output must keep moving toward it (never away, never
@@ -137,12 +140,15 @@ pub fn c13(t: &Trace, r: &mut Report) {
                         // settles on it: a sample that leaves the output where it was, with the same input and the same
                         // coefficients, is a fixed point of the (deterministic, one-pole) recurrence -- the output
                         // stays there for ever.  That is only acceptable within the resolution of the filter.
-                        if !retimed && run_len >= 2 && y == py && (y - x as f64).abs() > rh {
+                        // (the resolution that counts here is that of the coefficients in effect: after a switch to a short
+                        // time "while output != input" the output has to go the rest of the way)
+                        let rh_cur = rho((x.abs() as f64).max(y.abs()), alpha_cur);
+                        if !retimed && run_len >= 2 && y == py && (y - x as f64).abs() > rh_cur {
                             r.fail_d(
                                 i,
                                 start,
                                 "stuck",
-                                format!("with the input held at {} the output stopped at {} and can never settle on the input (resolution {:.3e})", x, y, rh),
+                                format!("with the input held at {} the output stopped at {} and can never settle on the input (resolution {:.3e})", x, y, rh_cur),
                                 vec![("x".into(), x as f64), ("y".into(), y)],
                             );
                         }
